@@ -390,7 +390,7 @@ def r_iter_views(ctx, db, est, ln, consts=None):
         a, ea, ba, rng, bn = hist_state(m, est, "self")
         for b in ba:
             (s, _), = b.terms.items()
-            m.ienv.declare(s, 0, 2**30)   # empty bins and the empty histogram (total 0: 0/0) included
+            m.ienv.declare(s, 0, 2**40)   # empty bins and the empty histogram (total 0: 0/0) included; counts are u64
         ref = VRef(a, (), False)
 
         def thunk():
